@@ -282,3 +282,144 @@ fn c13_feed_miss_empty_index() {
     std::mem::forget(co);
     std::mem::forget(v);
 }
+
+// ===========================================================================
+// NOT REGISTERED (kept as the record of an attempt, see DESIGN.md section 7): even with a fully concrete layout
+// this does not leave symbolic execution within 15 minutes.
+// C03 scenario runs: the real planner (`ChunkIndex::reorder_ops`, through
+// `strip_chunks_already_in_place`) and the real executor
+// (`CloneOutput::reorder_in_place`) on a CONCRETE layout of chunks (identities,
+// sizes, old and new offsets) over a file whose every BYTE is symbolic.  With
+// the layout concrete the control flow is concrete and the whole run finishes;
+// the solver decides "every reusable chunk ends up at all of its target
+// offsets, byte for byte, and nothing else is written" for all contents.
+// ===========================================================================
+const FLEN2: usize = 12;
+struct MemFile {
+    data: [u8; FLEN2],
+    pos: u64,
+    writes: usize,
+    w_off: [u64; 8],
+    w_len: [usize; 8],
+}
+impl AsyncRead for MemFile {
+    fn poll_read(mut self: Pin<&mut Self>, _cx: &mut Context<'_>, buf: &mut tokio::io::ReadBuf<'_>) -> Poll<io::Result<()>> {
+        let me = &mut *self;
+        let p = me.pos as usize;
+        let mut n = buf.remaining();
+        if p >= FLEN2 {
+            n = 0;
+        } else if n > FLEN2 - p {
+            n = FLEN2 - p;
+        }
+        buf.put_slice(&me.data[p..p + n]);
+        me.pos += n as u64;
+        Poll::Ready(Ok(()))
+    }
+}
+impl AsyncWrite for MemFile {
+    fn poll_write(mut self: Pin<&mut Self>, _cx: &mut Context<'_>, buf: &[u8]) -> Poll<io::Result<usize>> {
+        let me = &mut *self;
+        let p = me.pos as usize;
+        assert!(p + buf.len() <= FLEN2, "write beyond the modelled file");
+        assert!(me.writes < 8, "mock bound: too many writes");
+        me.w_off[me.writes] = me.pos;
+        me.w_len[me.writes] = buf.len();
+        me.writes += 1;
+        let mut i = 0;
+        while i < buf.len() {
+            me.data[p + i] = buf[i];
+            i += 1;
+        }
+        me.pos += buf.len() as u64;
+        Poll::Ready(Ok(buf.len()))
+    }
+    fn poll_flush(self: Pin<&mut Self>, _cx: &mut Context<'_>) -> Poll<io::Result<()>> {
+        Poll::Ready(Ok(()))
+    }
+    fn poll_shutdown(self: Pin<&mut Self>, _cx: &mut Context<'_>) -> Poll<io::Result<()>> {
+        Poll::Ready(Ok(()))
+    }
+}
+impl AsyncSeek for MemFile {
+    fn start_seek(mut self: Pin<&mut Self>, position: SeekFrom) -> io::Result<()> {
+        match position {
+            SeekFrom::Start(p) => {
+                self.pos = p;
+                Ok(())
+            }
+            _ => panic!("only absolute seeks expected"),
+        }
+    }
+    fn poll_complete(self: Pin<&mut Self>, _cx: &mut Context<'_>) -> Poll<io::Result<u64>> {
+        Poll::Ready(Ok(self.pos))
+    }
+}
+
+/// layout entry: (chunk id 1..=4, size, offset); id 0 = unused
+type Lay = [(u8, usize, u64); 4];
+fn index_of(l: &Lay) -> ChunkIndex {
+    let mut idx = ChunkIndex::new_empty(1);
+    let mut i = 0;
+    while i < 4 {
+        if l[i].0 != 0 {
+            idx.add_chunk(HashSum::from(&[l[i].0][..]), l[i].1, &[l[i].2]);
+        }
+        i += 1;
+    }
+    idx
+}
+fn reorder_scenario(old: Lay, new: Lay) {
+    let orig: [u8; FLEN2] = kani::any();
+    let file = MemFile { data: orig, pos: 0, writes: 0, w_off: [0; 8], w_len: [0; 8] };
+    let output_index = index_of(&old);
+    let clone_index = index_of(&new);
+    let mut co = CloneOutput::new(file, clone_index);
+    let mut cx = noop_cx();
+    let r = {
+        let fut = co.reorder_in_place(output_index);
+        tokio::pin!(fut);
+        match fut.as_mut().poll(&mut cx) {
+            Poll::Ready(r) => r,
+            Poll::Pending => panic!("pending on a ready file"),
+        }
+    };
+    assert!(r.is_ok());
+    // every chunk of the new layout that exists in the old file now sits at its new offset, byte for byte
+    let mut i = 0;
+    while i < 4 {
+        let (id, size, noff) = new[i];
+        if id != 0 {
+            // first location of that chunk in the old layout
+            let mut src: Option<u64> = None;
+            let mut j = 0;
+            while j < 4 {
+                if old[j].0 == id && src.is_none() {
+                    src = Some(old[j].2);
+                }
+                j += 1;
+            }
+            if let Some(so) = src {
+                let mut k = 0;
+                while k < size {
+                    assert!(co.inner.data[noff as usize + k] == orig[so as usize + k], "a reusable chunk was destroyed or misplaced");
+                    k += 1;
+                }
+                // and it is no longer wanted from seeds / the archive
+                assert!(!co.chunks().contains(&HashSum::from(&[id][..])));
+            } else {
+                assert!(co.chunks().contains(&HashSum::from(&[id][..])), "a chunk that is not in the old file must still be fetched");
+            }
+        }
+        i += 1;
+    }
+    kani::cover!(co.inner.writes > 0);
+    std::mem::forget(co);
+    std::mem::forget(r);
+}
+/// swap of two chunks of different size (overlapping destinations, cycle): A(2)@0 B(3)@2  ->  B@0 A@3
+#[kani::proof]
+#[kani::unwind(8)]
+fn c03_reorder_swap_ab() {
+    reorder_scenario([(1, 2, 0), (2, 3, 2), (0, 0, 0), (0, 0, 0)], [(2, 3, 0), (1, 2, 3), (0, 0, 0), (0, 0, 0)]);
+}
